@@ -151,6 +151,10 @@ def correspond(ctx):
     T.rt_part(ctx, c, ctx.n(30, 270))
     # timetag = logical time + latency after a tempo / beats change issued by a LATE routine of that clock (harness oracle)
     T.probe_part(ctx, c, only_ops=('tempo', 'beats'), modes=('rt',))
+    # oversized bundles: send_clumped_bundles / BundleNetAddr / sync(elements), latency None, negative, 0, positive
+    T.generic_probe_part(ctx, c, 'clumps', 'clumps_out', K.gen_clump, K.clump_expected,
+                         (('nrt', ctx.n(48, 480)), ('rt', ctx.n(48, 240))), 'none_or_negative_is_immediately',
+                         'oversized bundle')
     nb = 0
     for o in outs:
         if 'fatal' not in o:
